@@ -503,7 +503,7 @@ fn cancel_frames(h: &crate::mock::Handle, tag: &str) -> usize {
 
 pub fn run(rc: &mut RunCtx) {
     let seed = rc.seed;
-    let n = rc.n(1500, 30000);
+    let n = rc.n(3000, 40000);
     for i in 0..n {
         let id = format!("hist:{}", i);
         if !rc.mine(&id) {
